@@ -499,7 +499,11 @@ def mimic_checks(R: Recorder) -> None:
             """bound method doc"""
             return a
 
-    kinds: list[tuple[str, Any]] = [("builtin-sorted", sorted), ("builtin-divmod", divmod), ("bound-builtin", [3, 1, 2].index), ("slots-object", SlotsCallable()), ("plain-object", PlainCallable()),
+    def forward_annotated(node: "NotDefinedAnywhere", flag: "AlsoUnknown" = None) -> "NotDefinedAnywhere":  # type: ignore[name-defined]  # noqa: F821
+        """annotations that cannot be resolved where the function is decorated (a name imported under TYPE_CHECKING only, its own class)"""
+        return node
+
+    kinds: list[tuple[str, Any]] = [("forward-annotated", forward_annotated), ("builtin-sorted", sorted), ("builtin-divmod", divmod), ("bound-builtin", [3, 1, 2].index), ("slots-object", SlotsCallable()), ("plain-object", PlainCallable()),
                                     ("partial", functools.partial(sync_fn, 1)), ("lambda", lambda a: a), ("bound-method", PlainCallable().method), ("class", int)]
     sync_decos: list[tuple[str, Any]] = [("asynchronous", asynchronous), ("asynchronous()", lambda f: asynchronous()(f)), ("wrap_async", wrap_async), ("cache", cache), ("cache(limit)", lambda f: cache(limit=2)(f)),
                                          ("retry", retry), ("retry(limit)", lambda f: retry(limit=1)(f))]
